@@ -1448,6 +1448,14 @@ class Interp:
             if isinstance(o, PyDict):
                 o.d[self.dict_key(idx, target)] = v
                 return
+            if isinstance(o, SymList) and isinstance(idx, Z) and z3.is_int_value(z3.simplify(idx.e)) and z3.simplify(idx.e).as_long() == -1:
+                # l[-1] = v on a list of symbolic length: IndexError when empty; the ghost view's last element is replaced (the sum is no longer known)
+                self.implicit_exception(o.len > 0, "IndexError", target)
+                self.path.event("list.setitem", o.name, o, o.last, v)
+                o.last = v
+                if o.sum is not None:
+                    o.sum = z3.Real(fresh(f"sum_{o.name}_after_setitem")) if o.elem == "real" else None
+                return
             if self.reg.value_setitem(self, o, idx, v, target):
                 return
             self.unsupported(f"subscript assignment on {o!r}", target)
